@@ -33,6 +33,12 @@ var engineHostPool = append(append([]hostDecl{}, hostZoo...),
 	hostDecl{Name: "len", Params: []*T{tStr}, Ret: tNum, Beh: sxList("cnum", sxNum(-1)), Const: val.Num(-1)},
 	hostDecl{Name: "idp", Params: []*T{tNum}, Ret: tNum, Beh: sxList("cnum", sxNum(5)), Const: val.Num(5)},
 	hostDecl{Name: "<>", Params: []*T{tNum, tNum}, Ret: tNum, Beh: "(ret 1)", RetArg: 1},
+	// polymorphic overloads of one name and arity, from general to specific and the other way
+	// round: the first that unifies, in REGISTRATION order, is the one that is called
+	hostDecl{Name: "sel", Params: []*T{nil, nil}, Ret: nil, Beh: "(ret 0)"},
+	hostDecl{Name: "sel", Params: []*T{tNum, nil}, Ret: nil, Beh: "(ret 1)", RetArg: 1},
+	hostDecl{Name: "sel", Params: []*T{nil, tStr}, Ret: tStr, Beh: sxList("cstr", sxStr("sel-str")), Const: val.Str("sel-str")},
+	hostDecl{Name: "get", Params: []*T{tMap(tStr, tNum), tStr, tNum}, Ret: tNum, Beh: sxList("cnum", sxNum(-7)), Const: val.Num(-7)},
 )
 
 var engineVars = []envVar{{"n1", tNum}, {"n2", tNum}, {"s1", tStr}, {"b1", tBool}, {"xs", tList(tNum)}}
@@ -41,6 +47,7 @@ var enginePrograms = []string{
 	`!b1`, `tr(n1) + 1`, `string(b1)`, `n1 + 2`, `len(s1)`, `len(n1)`, `cnst()`, `if(b1, tr(n1), 2)`, `idp(n1)`, `idp(s1)`,
 	`print(n1)`, `string([n1, 2])`, `lz(n1, boom(1))`, `n1 <> 2`, `tr(n1 <> n2) + tr(1)`, `string(n1) + s1`, `!(n1 > n2) && b1`,
 	`xs[0] + len(xs)`, `tr2(n1, n2)`, `boom(n1)`, `n1 +`, `nosuch(n1)`, `s1 + n1`,
+	`sel(n1, s1)`, `sel(n1, n2)`, `sel(s1, s1)`, `sel(b1, s1)`, `sel(n1, xs)[0]`, `get(["a": 1], "a", 0)`, `get([1: 2], 1, 0)`, `get(["a": n1], s1, n2) + sel(n1, n2)`,
 }
 
 func engineHistoryCase(r *rand.Rand) Case {
@@ -225,7 +232,7 @@ func engineHistoryCase(r *rand.Rand) Case {
 func init() {
 	register(&Stream{
 		Name: "engine",
-		Rule: "random histories of 5-14 API calls on ONE yae.Expr: RegisterFun (12 host functions plus 8 that collide with built-ins or with each other: same monomorphic key with another behaviour, polymorphic signature under a built-in's name), RegisterOperator, UseCompiler (vm / closure / interp / closure.DebugCompile), UseBuiltIn(false), Compile (fixed programs incl. ill-typed and unparseable ones, and type-directed random ones over the functions registered so far), invocation of ANY Callable obtained so far (same values, fresh values, a missing name, a mistyped name); the model's Engine.run answers the whole history, compared output by output. Non-trivial = every history; distinct = distinct request.",
+		Rule: "random histories of 5-14 API calls on ONE yae.Expr: RegisterFun (12 host functions plus 12 that collide with built-ins or with each other: same monomorphic key with another behaviour, polymorphic signature under a built-in's name), RegisterOperator, UseCompiler (vm / closure / interp / closure.DebugCompile), UseBuiltIn(false), Compile (fixed programs incl. ill-typed and unparseable ones, and type-directed random ones over the functions registered so far), invocation of ANY Callable obtained so far (same values, fresh values, a missing name, a mistyped name); the model's Engine.run answers the whole history, compared output by output. Non-trivial = every history; distinct = distinct request.",
 		Gen: func(r *rand.Rand, n int, thorough bool) []Case {
 			var cs []Case
 			for i := 0; i < n; i++ {
